@@ -405,10 +405,13 @@ def key_of(exe, line, why):
     for c in exe.cmds[:getattr(exe, "nbody", len(exe.cmds))]:
         t = c.split()
         n = norm_cmd(t)
-        if n is None and t[0] in ("ualloc", "udup", "ufree", "udetach", "uattach", "bdup", "bfree"):
-            n = {"ualloc": "uref_alloc", "udup": "uref_dup", "ufree": "uref_free", "udetach": "uref_detach_ubuf",
-                 "uattach": "uref_attach_ubuf", "bdup": "ubuf_dup", "bfree": "ubuf_free"}[t[0]]
-            seq.append(n)
+        APPOPS = {"ualloc": "uref_alloc", "udup": "uref_dup", "ufree": "uref_free", "udetach": "uref_detach_ubuf",
+                  "uattach": "uref_attach_ubuf", "bdup": "ubuf_dup", "bfree": "ubuf_free",
+                  "balloc": "ubuf_block_alloc", "bappend": "ubuf_block_append", "binsert": "ubuf_block_insert",
+                  "btrunc": "ubuf_block_truncate", "bdelete": "ubuf_block_delete", "bresize": "ubuf_block_resize",
+                  "bsplit": "ubuf_block_split", "bsplice": "ubuf_block_splice", "bread": "ubuf_block_read"}
+        if n is None and t[0] in APPOPS:
+            seq.append(APPOPS[t[0]])
         elif n and len(t) > 1 and t[1] in ty:
             seq.append("%s.%s" % (ty[t[1]], n))
     what = "leak" if leak else (ev.get("kind") or why)
@@ -479,6 +482,23 @@ def well_formed(cmds):
             if t[1] not in live or t[2] in live:
                 return False
             live.add(t[2])
+        elif k == "balloc":
+            if t[1] in live:
+                return False
+            live.add(t[1])
+        elif k in ("bappend", "binsert"):
+            g = t[2] if k == "bappend" else t[3]
+            if t[1] not in live or g not in live or g == t[1]:
+                return False
+            live.discard(g)
+        elif k in ("bsplit", "bsplice"):
+            n = t[3] if k == "bsplit" else t[4]
+            if t[1] not in live or n in live:
+                return False
+            live.add(n)
+        elif k in ("btrunc", "bdelete", "bresize", "bread"):
+            if t[1] not in live:
+                return False
         elif k == "udetach":
             if t[1] not in live or t[2] in live:
                 return False
@@ -1001,6 +1021,16 @@ def epilogue_for(body):
             ubufs.append(t[2])
         elif k == "bdup":
             ubufs.append(t[2])
+        elif k == "balloc":
+            ubufs.append(t[1])
+        elif k == "bappend" and t[2] in ubufs:
+            ubufs.remove(t[2])
+        elif k == "binsert" and t[3] in ubufs:
+            ubufs.remove(t[3])
+        elif k == "bsplit":
+            ubufs.append(t[3])
+        elif k == "bsplice":
+            ubufs.append(t[4])
         elif k == "bfree" and t[1] in ubufs:
             ubufs.remove(t[1])
         elif k == "uattach" and t[2] in ubufs:
@@ -1034,6 +1064,88 @@ PUMP_TYPES = ("buffer", "disblo", "burst", "time_limit", "rate_limit", "sync", "
 # format, clock): released without any path to a sink, nobody can ever answer them and they stay alive by design.
 # Scripts containing one keep every released pipe connected (contract checked by well_formed as well).
 STALL_TYPES = ("tblk", "genaux", "even", "time_limit")
+
+
+def chain_op(rng, a, uid, ubufs, cmds):
+    """One call on the application's segmented block buffers (a in 9..16)."""
+    # segmented block buffers of the application: hand-over to a chain, cuts, split, full read
+    known = sorted(b for b in ubufs if isinstance(ubufs[b], int) and not isinstance(ubufs[b], bool))
+    if a == 9 or len(known) < 2:
+        if len(ubufs) < 4:
+            b = "b%d" % uid
+            k = rng.choice([0, 1, 3, 8, 8, 16])
+            cmds.append("balloc %s %d" % (b, k))
+            ubufs[b] = k
+    elif a in (10, 11):
+        h = rng.choice(known)
+        g = rng.choice([x for x in sorted(ubufs) if x != h])
+        n = ubufs[h]
+        if a == 10 or n == 0:
+            cmds.append("bappend %s %s" % (h, g))
+        else:
+            cmds.append("binsert %s %d %s" % (h, rng.below(n), g))
+        gs = ubufs.pop(g)
+        ubufs[h] = n + gs if isinstance(gs, int) and not isinstance(gs, bool) else True
+    elif a == 12:
+        h = rng.choice(known)
+        n = ubufs[h]
+        c3 = rng.below(3)
+        if c3 == 0:
+            t_ = rng.below(n + 1)
+            cmds.append("btrunc %s %d" % (h, t_))
+            ubufs[h] = t_
+        elif c3 == 1 and n > 0:
+            o = rng.below(n)
+            sz_ = 1 + rng.below(n - o)
+            cmds.append("bdelete %s %d %d" % (h, o, sz_))
+            ubufs[h] = n - sz_
+        elif n > 0:
+            o = rng.below(n)
+            cmds.append("bresize %s %d -1" % (h, o))
+            ubufs[h] = n - o
+    elif a == 13 and len(ubufs) < 4:
+        h = rng.choice(known)
+        n = ubufs[h]
+        if n > 0:
+            b = "b%d" % uid
+            o = rng.below(n)
+            if rng.chance(2, 3):
+                cmds.append("bsplit %s %d %s" % (h, o, b))
+                ubufs[h], ubufs[b] = o, n - o
+            else:
+                sz_ = 1 + rng.below(n - o)
+                cmds.append("bsplice %s %d %d %s" % (h, o, sz_, b))
+                ubufs[b] = sz_
+    else:
+        cmds.append("bread %s" % rng.choice(sorted(ubufs)))
+
+
+def gen_chain(rng, quick):
+    """Programs made only of calls on segmented block buffers: allocation, hand-over to the chain of
+    another buffer (append / insert), cuts that free segments (truncate / delete / resize), split /
+    splice that give segments back, reads of whole chains, dup and free."""
+    pool = rng.choice([0, 0, 2, 3])
+    cmds, ubufs = [], {}
+    uid = 0
+    for _ in range(8 + rng.below(10 if quick else 24)):
+        uid += 1
+        a = rng.choice([9, 9, 10, 10, 10, 11, 11, 12, 12, 12, 13, 13, 14, 15, 16, 17, 18])
+        if a == 17:
+            if ubufs and len(ubufs) < 4:
+                src = rng.choice(sorted(ubufs))
+                b = "b%d" % uid
+                cmds.append("bdup %s %s" % (src, b))
+                ubufs[b] = ubufs[src]
+        elif a == 18:
+            if len(ubufs) > 1:
+                b = rng.choice(sorted(ubufs))
+                cmds.append("bfree %s" % b)
+                del ubufs[b]
+        else:
+            chain_op(rng, a, uid, ubufs, cmds)
+    e = Exe(cmds + epilogue_for(cmds), "random block chains", pool)
+    e.nbody = len(cmds)
+    return e
 
 
 def gen_random(rng, info, quick):
@@ -1191,8 +1303,11 @@ def gen_random(rng, info, quick):
             cmds.append("answer")
         else:
             # application-level urefs and ubufs
-            a = rng.below(9)
+            a = rng.below(17)
             uid += 1
+            if a >= 9:
+                chain_op(rng, a, uid, ubufs, cmds)
+                continue
             if a == 0 and len(urefs) < 3:
                 n = "u%d" % uid
                 cmds.append("ualloc %s %d" % (n, rng.choice([0, 4, 32])))
@@ -1211,7 +1326,7 @@ def gen_random(rng, info, quick):
                 if urefs[n] == "blk":
                     b = "b%d" % uid
                     cmds.append("udetach %s %s" % (n, b))
-                    ubufs[b] = 1
+                    ubufs[b] = True          # size not tracked
                     urefs[n] = "nobuf"
             elif a == 4 and urefs and ubufs:
                 n = rng.choice(sorted(urefs))
@@ -1222,8 +1337,9 @@ def gen_random(rng, info, quick):
                     urefs[n] = "blk"
             elif a == 5 and ubufs and len(ubufs) < 3:
                 b = "b%d" % uid
-                cmds.append("bdup %s %s" % (rng.choice(sorted(ubufs)), b))
-                ubufs[b] = 1
+                src = rng.choice(sorted(ubufs))
+                cmds.append("bdup %s %s" % (src, b))
+                ubufs[b] = ubufs[src]
             elif a == 6 and ubufs:
                 b = rng.choice(sorted(ubufs))
                 cmds.append("bfree %s" % b)
@@ -1297,6 +1413,7 @@ def run(ctx):
             side["info"] = info
             rng = vlib.Rng(ctx.seed)
             rnd = [gen_random(rng, info, quick) for _ in range(300 if quick else 9000)]
+            rnd += [gen_chain(rng, quick) for _ in range(120 if quick else 4000)]
             xs = directed() + rnd
             execute(ctx, binp, xs, jobs=4 if quick else 6)
             side["exes"] = cal + xs
